@@ -19,6 +19,7 @@ import Mathlib.Data.Matrix.Block
 import Mathlib.Data.Matrix.Mul
 import Mathlib.Algebra.BigOperators.Group.Finset.Basic
 import Mathlib.Algebra.Field.Defs
+import Mathlib.Algebra.Order.Group.Unbundled.Abs
 
 namespace MiciVerif.MatricesGrad
 open Matrix
@@ -193,11 +194,14 @@ def softabsGradQuad [Fintype n] (Q : Matrix n n R) (fli : n → R) (J : Matrix n
   -(Q * (Matrix.of fun a b =>
       ((Qᵀ *ᵥ v) a * fli a) * ((Qᵀ *ᵥ v) b * fli b) * J a b) * Qᵀ)
 
-/-- The code's `j_mtx` over a field: derivative where the unregularised eigenvalues
-coincide (diagonal **and** repeated eigenvalues), divided difference elsewhere. -/
-def softabsJ {K : Type*} [Field K] [DecidableEq K] (f df : K → K) (lam : n → K) :
+/-- The code's `j_mtx` over an ordered field: for pairs of unregularised eigenvalues the code
+treats as coincident, `|λa-λb| ≤ tol·max(|λa+λb|, 1)` (all diagonal terms **and** repeated
+eigenvalues; `tol = sqrt(eps)` in floating point, `tol = 0` in exact arithmetic), the derivative
+at the midpoint `grad_softabs((λa+λb)/2)`, the divided difference elsewhere. -/
+def softabsJ {K : Type*} [Field K] [LinearOrder K] (tol : K) (f df : K → K) (lam : n → K) :
     Matrix n n K :=
   Matrix.of fun a b =>
-    if lam a - lam b = 0 then df (lam b) else (f (lam a) - f (lam b)) / (lam a - lam b)
+    if |lam a - lam b| ≤ tol * max |lam a + lam b| 1 then df ((lam a + lam b) / 2)
+    else (f (lam a) - f (lam b)) / (lam a - lam b)
 
 end MiciVerif.MatricesGrad
